@@ -278,6 +278,82 @@ pub fn binary_case(ctx: &Ctx, exe: &std::path::Path, text: &str, tag: u64) -> Ca
     CaseResult::Pass { nontrivial: n >= 3, hash: hash_str(text) ^ 0xb1, classes, sample: None }
 }
 
+fn collect_files(dir: &std::path::Path) -> std::collections::BTreeMap<String, Vec<u8>> {
+    let mut out = std::collections::BTreeMap::new();
+    let mut stack = vec![dir.to_path_buf()];
+    while let Some(d) = stack.pop() {
+        if let Ok(rd) = std::fs::read_dir(&d) {
+            for e in rd.flatten() {
+                let p = e.path();
+                if p.is_dir() {
+                    stack.push(p);
+                } else if let Ok(rel) = p.strip_prefix(dir) {
+                    // the copied runtime sources are not compiler output of the program
+                    if !rel.starts_with("target_scc/infrastructure") && rel.starts_with("target_scc") {
+                        out.insert(rel.display().to_string(), std::fs::read(&p).unwrap_or_default());
+                    }
+                }
+            }
+        }
+    }
+    out
+}
+
+/// the real binary, history in one working directory: `prev` is compiled first under the same
+/// file name, then `text`; every file the tool writes for `text` must equal what it writes in a
+/// fresh directory
+pub fn binary_history_case(ctx: &Ctx, exe: &std::path::Path, prev: &str, text: &str, tag: u64) -> CaseResult {
+    let run = |dir: &std::path::Path, src: &str| -> bool {
+        if std::fs::write(dir.join("prog.sc"), src).is_err() {
+            return false;
+        }
+        let mut ok = false;
+        for backend in ["rv64", "x86-64"] {
+            let mut cmd = Command::new(exe);
+            cmd.arg("-n").arg("codegen").arg("prog.sc").arg(backend).arg("--print-ir").current_dir(dir).stdin(Stdio::null()).stdout(Stdio::null()).stderr(Stdio::null());
+            if cmd.output().is_ok() {
+                ok = true;
+            }
+        }
+        ok
+    };
+    let fresh = ctx.scratch.join(format!("hist{tag:016x}_fresh"));
+    let hist = ctx.scratch.join(format!("hist{tag:016x}_after"));
+    let _ = std::fs::create_dir_all(&fresh);
+    let _ = std::fs::create_dir_all(&hist);
+    let ok = run(&fresh, text) && run(&hist, prev) && run(&hist, text);
+    let a = collect_files(&fresh);
+    let b = collect_files(&hist);
+    let _ = std::fs::remove_dir_all(&fresh);
+    let _ = std::fs::remove_dir_all(&hist);
+    if !ok {
+        return CaseResult::Discard("infra: cannot run scc".into());
+    }
+    if a.is_empty() {
+        return CaseResult::Discard("program not accepted".into());
+    }
+    for (name, content) in &a {
+        match b.get(name) {
+            Some(c) if c == content => {}
+            other => {
+                let x = String::from_utf8_lossy(content).into_owned();
+                let y = other.map(|c| String::from_utf8_lossy(c).into_owned()).unwrap_or_else(|| "<file missing>".into());
+                return CaseResult::Fail(Failure {
+                    kind: "binary-history".into(),
+                    summary: format!("`scc codegen` writes a different {name} when another program was compiled before under the same file name in the same directory: {}", first_diff(&x, &y)),
+                    details: json!({"source": text, "compiled_before": prev, "file": name}),
+                });
+            }
+        }
+    }
+    CaseResult::Pass {
+        nontrivial: prev.len() > text.len(),
+        hash: hash_str(text) ^ hash_str(prev),
+        classes: vec![format!("binary: history, {} files", a.len()), if prev.len() > text.len() { "binary: earlier program larger".into() } else { "binary: earlier program smaller".into() }],
+        sample: None,
+    }
+}
+
 pub fn history_case(texts: &[String]) -> CaseResult {
     // compile the last text alone (twice) and after the others: equal up to label numbering
     let Some(last) = texts.last() else { return CaseResult::Discard("empty".into()) };
@@ -313,7 +389,7 @@ pub fn check(ctx: &Ctx) -> i32 {
     let start = Instant::now();
     let mut ev = Evidence::default();
     let k = ctx.tier.pick(8, 32);
-    ev.rule = format!("(a) each generated program is compiled in {k} fresh processes (`sccv stage`, i.e. the repository's library stages; each process draws fresh hash seeds; environment variables and working directory varied) and the concatenation of printed Core, uniquified Core, focused Core, AxCut, linearized AxCut and the assembly of all three backends must be byte-identical; (b) histories: a program is compiled alone, twice, and after 1..3 other programs in one process; all outputs must be identical after renumbering the generated label counters (lab<n>, <Type>_<n>) by first occurrence. Non-trivial: (a) >= 3 polymorphic type instances in the source (hash order can matter), (b) history length >= 2; distinct by source hash. (c) the real `scc` binary: `compile`, `focus`, `shrink`, `linearize` three times each with varied environment and working directory must print identical text, and the assembly files written by `scc codegen rv64|x86-64` in two different working directories must be identical. Hash seeds cannot be chosen: processes sample them.");
+    ev.rule = format!("(a) each generated program is compiled in {k} fresh processes (`sccv stage`, i.e. the repository's library stages; each process draws fresh hash seeds; environment variables and working directory varied) and the concatenation of printed Core, uniquified Core, focused Core, AxCut, linearized AxCut and the assembly of all three backends must be byte-identical; (b) histories: a program is compiled alone, twice, and after 1..3 other programs in one process; all outputs must be identical after renumbering the generated label counters (lab<n>, <Type>_<n>) by first occurrence. Non-trivial: (a) >= 3 polymorphic type instances in the source (hash order can matter), (b) history length >= 2; distinct by source hash. (c) the real `scc` binary: `compile`, `focus`, `shrink`, `linearize` three times each with varied environment and working directory must print identical text, and the assembly files written by `scc codegen rv64|x86-64` in two different working directories must be identical; and every file written by `scc codegen --print-ir` for a program must be the same in a fresh directory and in a directory where another program was compiled before under the same file name. Hash seeds cannot be chosen: processes sample them.");
     ev.assumptions = vec!["(a) and (b) call the library functions the CLI calls; (c) runs the binary built from the same tree".into()];
     let cfg = cfg_for(ctx);
     let mut report = Report { violations: vec![], infra_errors: vec![] };
@@ -356,6 +432,20 @@ pub fn check(ctx: &Ctx) -> i32 {
                 eprintln!("{}", f.summary);
                 report.violations.push(write_replay(ctx, "binary", &bytes, &f));
             }
+            if report.violations.is_empty() {
+                let n4 = ctx.tier.pick(60, 1500);
+                let run4 = |b: &[u8]| {
+                    let half = b.len() / 2;
+                    let prev = emit_program(&gen_program(&b[..half], &cfg).0);
+                    let text = emit_program(&gen_program(&b[half..], &cfg).0);
+                    binary_history_case(ctx, &exe, &prev, &text, hash_str(&text) ^ hash_str(&prev))
+                };
+                let out4 = drive(&mut ev, ctx.seed, 317, n4, 300, 4000, 20, &run4);
+                if let Some((bytes, f)) = out4.failure {
+                    eprintln!("{}", f.summary);
+                    report.violations.push(write_replay(ctx, "binhist", &bytes, &f));
+                }
+            }
         } else {
             report.infra_errors.push("the scc binary is not built (harness/target/scc); run ./check, not the harness directly".into());
         }
@@ -369,6 +459,13 @@ pub fn check(ctx: &Ctx) -> i32 {
 
 pub fn replay(ctx: &Ctx, sub: &str, bytes: &[u8], _case: &serde_json::Value) -> CaseResult {
     let cfg = cfg_for(ctx);
+    if sub.starts_with("binhist") {
+        let Some(exe) = super::cli::scc_exe(ctx) else { return CaseResult::Discard("infra: scc binary not built".into()) };
+        let half = bytes.len() / 2;
+        let prev = emit_program(&gen_program(&bytes[..half], &cfg).0);
+        let text = emit_program(&gen_program(&bytes[half..], &cfg).0);
+        return binary_history_case(ctx, &exe, &prev, &text, hash_str(&text) ^ hash_str(&prev));
+    }
     if sub.starts_with("binary") {
         let Some(exe) = super::cli::scc_exe(ctx) else { return CaseResult::Discard("infra: scc binary not built".into()) };
         let (p, _) = gen_program(bytes, &cfg);
